@@ -595,7 +595,7 @@ impl Core {
                 core: Some(c),
                 cache,
             },
-            o => panic!("harness: cannot create core on empty storage: {}", o.map(|_| ()).brief()),
+            o => crate::sup::setup_failed(serde_json::json!([]), &format!("cannot create a core on empty storage: {}", o.map(|_| ()).brief())),
         }
     }
     pub fn from_image(img: Image, cache: CacheCfg) -> (Core, Out<()>) {
